@@ -130,7 +130,78 @@ def inventory(tree: ast.Module) -> dict[str, dict]:
                     visit(h.body, prefix)
 
     visit(tree.body, "")
+    out["<module>"] = {"names": sorted(_module_names(tree))}
     return out
+
+
+def _module_names(tree: ast.Module) -> set[str]:
+    names: set[str] = set()
+    for st in tree.body:
+        for t in (st.targets if isinstance(st, ast.Assign) else [st.target] if isinstance(st, (ast.AnnAssign, ast.AugAssign)) else []):
+            for x in ast.walk(t):
+                if isinstance(x, ast.Name):
+                    names.add(x.id)
+    return names
+
+
+def _simple_constant(v: ast.AST | None) -> bool:
+    if isinstance(v, ast.Constant) and (isinstance(v.value, (int, bytes, str, float)) or v.value is None):
+        return True
+    return isinstance(v, ast.UnaryOp) and isinstance(v.op, ast.USub) and isinstance(v.operand, ast.Constant) and isinstance(v.operand.value, (int, float))
+
+
+def inline_new_constants(tree: ast.Module, rel: str, baseline: dict) -> int:
+    """A module-level name that the pinned tree does not have, bound once to a literal (``READ_ALL = -1``, ``NULL_BYTE = b"\\x00"``), is read as that
+    literal by every rule: a magic number given a name is the same program."""
+    known = set((baseline.get(rel, {}).get("<module>") or {}).get("names", []))
+    if rel not in baseline or "<module>" not in baseline[rel]:
+        return 0
+    cands: dict[str, ast.AST] = {}
+    values: dict[str, object] = {}
+    stores: dict[str, int] = {}
+    for x in ast.walk(tree):
+        if isinstance(x, ast.Name) and isinstance(x.ctx, (ast.Store, ast.Del)):
+            stores[x.id] = stores.get(x.id, 0) + 1
+        if isinstance(x, ast.Global):
+            for n_ in x.names:
+                stores[n_] = stores.get(n_, 0) + 2
+        if isinstance(x, ast.arg):
+            stores[x.arg] = stores.get(x.arg, 0) + 1
+    for st in tree.body:
+        tgt = val = None
+        if isinstance(st, ast.Assign) and len(st.targets) == 1 and isinstance(st.targets[0], ast.Name):
+            tgt, val = st.targets[0].id, st.value
+        elif isinstance(st, ast.AnnAssign) and isinstance(st.target, ast.Name):
+            tgt, val = st.target.id, st.value
+        if tgt and tgt not in known and stores.get(tgt, 0) == 1 and val is not None:
+            if _simple_constant(val):
+                cands[tgt] = val
+                values[tgt] = ast.literal_eval(val)
+            else:
+                # a constant expression over literals and the constants found so far (WCHAR_NULL = b"\\x00" * WCHAR_SIZE)
+                try:
+                    from .minieval import Evaluator
+
+                    v_ = Evaluator({}, steps=500).ev(val, dict(values))
+                except Exception:  # noqa: BLE001 - not a constant expression
+                    continue
+                if (isinstance(v_, (int, bytes, str, float)) and not isinstance(v_, bool)) or v_ is None:
+                    cands[tgt] = ast.Constant(v_)
+                    values[tgt] = v_
+    if not cands:
+        return 0
+
+    class Tr(ast.NodeTransformer):
+        def visit_Name(self, node: ast.Name):
+            if isinstance(node.ctx, ast.Load) and node.id in cands:
+                return ast.copy_location(copy.deepcopy(cands[node.id]), node)
+            return node
+
+    for st in tree.body:
+        if isinstance(st, (ast.FunctionDef, ast.AsyncFunctionDef, ast.ClassDef)):
+            Tr().visit(st)
+    ast.fix_missing_locations(tree)
+    return len(cands)
 
 
 def _walk_no_nested(fn: ast.AST):
@@ -719,12 +790,43 @@ def keyword_dicts(tree: ast.AST) -> int:
     return count
 
 
+def split_parallel_assignments(tree: ast.AST) -> int:
+    """``a, b, c = x, y, z`` (plain names on the left, as many expressions on the right, no later expression reading an earlier target) is
+    ``a = x; b = y; c = z`` for every rule: Python evaluates the right-hand sides left to right either way, and binding a name has no effect."""
+    count = 0
+    for n in ast.walk(tree):
+        for fld in ("body", "orelse", "finalbody"):
+            lst = getattr(n, fld, None)
+            if not isinstance(lst, list):
+                continue
+            out: list = []
+            for st in lst:
+                if isinstance(st, ast.Assign) and len(st.targets) == 1 and isinstance(st.targets[0], (ast.Tuple, ast.List)) and isinstance(st.value, (ast.Tuple, ast.List)) \
+                        and len(st.targets[0].elts) == len(st.value.elts) and all(isinstance(t, ast.Name) for t in st.targets[0].elts) \
+                        and not any(isinstance(v, ast.Starred) for v in st.value.elts):
+                    names = [t.id for t in st.targets[0].elts]
+                    loaded = [{x.id for x in ast.walk(v) if isinstance(x, ast.Name)} for v in st.value.elts]
+                    if len(set(names)) == len(names) and not any(names[i] in loaded[j] for i in range(len(names)) for j in range(len(names)) if i != j):
+                        for t, v in zip(st.targets[0].elts, st.value.elts):
+                            out.append(ast.copy_location(ast.Assign(targets=[t], value=v), st))
+                        count += 1
+                        continue
+                out.append(st)
+            if count:
+                setattr(n, fld, out)
+    if count:
+        ast.fix_missing_locations(tree)
+    return count
+
+
 def normalize_module(rel: str, tree: ast.Module) -> dict:
     untype_locals(tree)
     keyword_dicts(tree)
     baseline = load_baseline()
     if not baseline or rel not in baseline:
+        split_parallel_assignments(tree)
         return {"inlined": 0, "propagated": 0}
+    inline_new_constants(tree, rel, baseline)
     stats = {"inlined": inline_new_helpers(tree, rel, baseline), "propagated": 0}
     known_funcs = baseline[rel]
 
@@ -744,6 +846,9 @@ def normalize_module(rel: str, tree: ast.Module) -> dict:
     visit(tree.body, "")
     if stats["inlined"] or stats["propagated"]:
         _cleanup(tree)
+    if split_parallel_assignments(tree):
+        # the split may expose new single-definition locals (results handed back by an inlined helper)
+        visit(tree.body, "")
     return stats
 
 
